@@ -106,6 +106,20 @@ def p_target(t, twin):
     raise ValueError(k)
 
 
+def ls_shape(targets):
+    """nesting of the value a shape program assigns: what its (first) tuple target takes apart; 0 = a leaf.
+    A starred element stands for two leaves."""
+    def sh(t):
+        if t["t"] != "tuple":
+            return 0
+        out = []
+        for x in t["elts"]:
+            out.extend([0, 0] if x["t"] == "star" else [sh(x)])
+        return out
+    tups = [t for t in targets if t["t"] == "tuple"]
+    return sh(tups[0]) if tups else 0
+
+
 def target_names(t):
     k = t["t"]
     if k in ("name", "star"):
@@ -133,7 +147,8 @@ def p_stmt(s, ind, twin):
     nxt = ind + "    "
     if k == "assign":
         lhs = " = ".join(p_target(t, twin) for t in s["targets"])
-        out = [f"{ind}{lhs} = {p_expr(s['e'], twin)}"]
+        rhs = f"LS({s['e']['k']}, {ls_shape(s['targets'])!r})" if s["e"]["e"] == "ls" else p_expr(s["e"], twin)
+        out = [f"{ind}{lhs} = {rhs}"]
         if twin:
             for t in s["targets"]:
                 out += binds(target_names(t), ind)
@@ -216,7 +231,7 @@ def p_stmt(s, ind, twin):
     raise ValueError(k)
 
 
-HEADER = "from harness.worlds.rt2 import E, C, R, IT, U, O, CM, F, B, SEEN, A, ScriptExc\nfrom ptera import tag\n" \
+HEADER = "from harness.worlds.rt2 import E, C, R, IT, U, O, CM, F, B, SEEN, A, LS, ScriptExc\nfrom ptera import tag\n" \
          "def BX(name, value):\n    B(name, value)\n    return value\n"
 
 
